@@ -30,7 +30,16 @@ corr():        model <-> implementation: the Lean model (KawinV.SaveLoad with th
                value reproduced at every stored training point; node count of the fitted interpolator = number of distinct stored
                points), all training orders x getter calls x toJson/fromJson (rebuilt = original at and between the training
                points; prediction of Q = that of a surrogate on which only Q was trained), and the Lean model of the fitting
-               state (KawinV.SurrogateFit) on the same histories."""
+               state (KawinV.SurrogateFit) on the same histories.
+               EVERY CLASS WITH A save / load PAIR x EVERY KEYWORD BRANCH OF save (saveload_pairs / save_variants / class_roundtrip /
+               fields_oracle / check_classes): the package is walked for save<X> / load<X> method pairs (GenericModel and its subclasses
+               PrecipitateModel, SinglePhaseModel, HomogenizationModel, GrainGrowthModel, Coupler; StrengthModel.save(compressed);
+               PopulationBalanceModel.saveRecordedPSD(compressed) + PrecipitateModel.saveRecordedPSD(compressed, phase)); regenerate()
+               reads the (key, attribute) lines of every branch off the real methods with marker arrays (table saveTables); every
+               boolean keyword combination of save is exercised on real runs in which particles exist (rss != ls != solid solution
+               strength), on synthetic histories, and in solve / save(name, compressed) / load histories of a coupled StrengthModel;
+               the fields save() writes are DISCOVERED (what load changes in a fresh object + attributes found bit for bit in the file)
+               and each must come back exactly; two entries of a file are identical only if the fields were."""
 import contextlib, copy, inspect, io, json, math, os, re, shutil, tempfile, traceback, warnings
 import numpy as np
 import vlib
@@ -38,7 +47,7 @@ from vlib import Result, enc_list, f2b, b2f, Toks, close
 
 PROP = 'C20'
 META = {
-    'level_text': 'Lean 4 theorems about an executable model of the save/load layers (npz archive = identity on float arrays, load error on a saved None; toDict/fromDict = tables of (key, slot, optional) lines; JSON = ndarray.tolist / np.array) whose tables are EXTRACTED from the running code on every run: key coverage (every key read is written into the same slot; the 16 histories, per-phase PBM data / PSD / bounds / sizes / aspect-ratio table, diffusion t, x and recorded arrays are written and read) by `decide` over the generated tables; round trip load(save s) = ok s\' with every observable equal for every state, any number of distinct phase names and any array contents (keys of different phases cannot collide: prefix-freeness of the generated key prefixes); a diffusion file loads whatever the recording options (after the repair in known_findings.txt; the unrepaired table is proved to fail); the recorded size-distribution history is proved NOT to survive (finding); every untrained surrogate getter falls through to the thermodynamics method of the same name, unchanged arguments and result (`decide` over the recorded table) and hands EVERY argument of the caller on: Python call binding of the forwarding line is modelled (KawinV.Forward: getter signature with *args/**kwargs -> forwarded call -> thermodynamics signature), `untrained_forwards_all_arguments` decides on the regenerated rows that nothing is dropped or renamed and that the canonical calls (all keywords, each keyword alone, all positional, mixed) deliver every argument under its own name, `forward_faithful_partial` / `untrained_getters_hand_on_every_keyword` prove it for EVERY call with distinct keywords whose positional arguments are for the getter own parameters (a dropped phase and the pre-e476a9c keyword-then-*args line are proved to fail on concrete calls); fromJson(toJson d) = d for well-formed arrays of any rank. HISTORIES: a process = live model objects + a file store (name -> contents, `npzName` = the .npz suffix rule); `files_after_history` / `load_returns_last_save` (+ `precip_`/`diff_` instances over the generated tables): for EVERY sequence of solve / save / load calls on any number of models and file names, load(f) into a fresh model returns every observable of the saved model as it was at the moment of the LAST save to f (specification `lastSaved` read off the history backwards); the variant with a read cache that save does not invalidate is proved to return the first save point (`cached_load_returns_earlier_save_point`). SURROGATE FITTING STATE (KawinV.SurrogateFit: shared kernel settings, per quantity stored data and fitted kernel = what the kernel constructor received, fixed refit order of fromJson; hooks for what `_createInput` does to the settings and what `_fit` does to the training rows, identity in the code): `rebuild_equals_original` (every history of trainings / getter calls, all quantities, any order), `prediction_independent_of_order` / `prediction_as_if_trained_alone`, `settings_const`, `fit_uses_every_training_point`, for every hook that leaves the settings alone; witnesses `flip_rebuilt_differs`, `flip_depends_on_order` (a one-axis input switches normalize off in the shared settings), `filter_drops_training_points` (absolute-tolerance filter before the fit).',
+    'level_text': 'Lean 4 theorems about an executable model of the save/load layers (npz archive = identity on float arrays, load error on a saved None; toDict/fromDict = tables of (key, slot, optional) lines; JSON = ndarray.tolist / np.array) whose tables are EXTRACTED from the running code on every run: key coverage (every key read is written into the same slot; the 16 histories, per-phase PBM data / PSD / bounds / sizes / aspect-ratio table, diffusion t, x and recorded arrays are written and read) by `decide` over the generated tables; round trip load(save s) = ok s\' with every observable equal for every state, any number of distinct phase names and any array contents (keys of different phases cannot collide: prefix-freeness of the generated key prefixes); a diffusion file loads whatever the recording options (after the repair in known_findings.txt; the unrepaired table is proved to fail); the recorded size-distribution history is proved NOT to survive (finding); every untrained surrogate getter falls through to the thermodynamics method of the same name, unchanged arguments and result (`decide` over the recorded table) and hands EVERY argument of the caller on: Python call binding of the forwarding line is modelled (KawinV.Forward: getter signature with *args/**kwargs -> forwarded call -> thermodynamics signature), `untrained_forwards_all_arguments` decides on the regenerated rows that nothing is dropped or renamed and that the canonical calls (all keywords, each keyword alone, all positional, mixed) deliver every argument under its own name, `forward_faithful_partial` / `untrained_getters_hand_on_every_keyword` prove it for EVERY call with distinct keywords whose positional arguments are for the getter own parameters (a dropped phase and the pre-e476a9c keyword-then-*args line are proved to fail on concrete calls); fromJson(toJson d) = d for well-formed arrays of any rank. HISTORIES: a process = live model objects + a file store (name -> contents, `npzName` = the .npz suffix rule); `files_after_history` / `load_returns_last_save` (+ `precip_`/`diff_` instances over the generated tables): for EVERY sequence of solve / save / load calls on any number of models and file names, load(f) into a fresh model returns every observable of the saved model as it was at the moment of the LAST save to f (specification `lastSaved` read off the history backwards); the variant with a read cache that save does not invalidate is proved to return the first save point (`cached_load_returns_earlier_save_point`). SURROGATE FITTING STATE (KawinV.SurrogateFit: shared kernel settings, per quantity stored data and fitted kernel = what the kernel constructor received, fixed refit order of fromJson; hooks for what `_createInput` does to the settings and what `_fit` does to the training rows, identity in the code): `rebuild_equals_original` (every history of trainings / getter calls, all quantities, any order), `prediction_independent_of_order` / `prediction_as_if_trained_alone`, `settings_const`, `fit_uses_every_training_point`, for every hook that leaves the settings alone; witnesses `flip_rebuilt_differs`, `flip_depends_on_order` (a one-axis input switches normalize off in the shared settings), `filter_drops_training_points` (absolute-tolerance filter before the fit). EVERY CLASS WITH A save/load PAIR, EVERY KEYWORD BRANCH (generated table `saveTables`: one row (class, on-disk format, lines (key, attribute) of that branch of save, lines of load) per class of the package and per value of the `compressed` keyword, read off the real methods on marker arrays): `save_tables_ok` decides `saveRowOk` on every regenerated row (keys distinct, every line of load covered by a line of the branch with the same key AND the same attribute, every line of the branch read back into the attribute it was written from), `saved_fields_roundtrip` / `every_class_every_branch_roundtrips` (load(save s) = ok s\' with every saved field equal, for every row passing `saveRowOk`, any arrays), `saved_entry_is_its_field` / `equal_entries_equal_fields` (two entries of a file are equal only if the two attributes were), `keyword_classes_have_both_branches` (both formats tabulated, same lines), `every_pair_has_a_row`, `strength_fields_saved`; witnesses `swapped_row_rejected`, `swapped_branch_reloads_rss_as_ls`, `swapped_branch_duplicates_an_entry` (the uncompressed branch writing the key ls from rss).',
     'level_note': 'Trusted: Lean kernel + Mathlib (axioms propext/Classical.choice/Quot.sound). The tables are what the recording run observed on marker data for a 2-phase and a 3-phase model (data-dependent branches of toDict/fromDict other than "slot is None"/"key missing" would not be seen; none exist today); NumPy savez/load, zip compression, dtype handling, json printing/parsing of numbers (repr round trip) are trusted and only compared on this run\'s cases. MONITORED (oracle only, SciPy RBFInterpolator): a trained surrogate reproduces its training data at the training points; a surrogate rebuilt from its file gives the same predictions. The history and fitting-state models are tied to the code on every run (same histories through the driver: outcome and every slot of every load; normalize flag of kernelKwargs after every call, per quantity kernel present / fitted normalised / node count for the original and the rebuilt surrogate); what `solve` does to a model and what the SciPy interpolator computes are not modelled (a solve is `any new state`, a kernel is `what its constructor received`). Continuing a run after a reload is outside the statement and recorded as a finding (histories do continue loaded models: whatever state they reach must come back from the next save/load). This kawin version has no recording interval, so "recording options" are on / off / switched off / data removed.',
     'technique': 'Lean 4 proof over extracted tables (decide) + structural induction; model/implementation differential correspondence; direct save->load->compare oracle on real runs',
     'design_ref': 'DESIGN.md section 6, C20',
@@ -47,12 +56,13 @@ LEAN_MODULES = ['KawinV.Props.C20']
 MONITORED = [
     'a trained surrogate reproduces its training data at the training points (SciPy RBFInterpolator; oracle, rtol 1e-6; closely spaced grids 1e-5..1e-2 in x, 0.1..50 K, 1..1000 J/mol, linear and log fits, single axes: the unchanged code is within 1e-9)',
     'a surrogate rebuilt from its saved JSON file gives bit-identical predictions (oracle at random query points; all training orders of 2-3 quantities with 1 and 2 input axes, rtol 1e-8 at and between the training points; Q predicted as by a surrogate trained on Q alone)',
-    'StrengthModel.save/load and PopulationBalanceModel.saveRecordedPSD/loadRecordedPSD reproduce their arrays (oracle; same npz layer)',
+    'zip compression of np.savez_compressed vs np.savez is the identity on the arrays (the two branches of StrengthModel.save / saveRecordedPSD are modelled as tables of lines; the bytes on disk are compared through np.load on every case)',
 ]
 ASSUMPTIONS = [
     'histories: kawin has one file format (np.savez_compressed); "the same file" is tested through both spellings of its name (with / without .npz); loads go into freshly constructed models of the same configuration; PSD recording is off in the precipitation histories (known finding psd-recording-not-saved)',
     'training orders: every training leaves at least one non-single input axis (a one-point training stores the data, raises and keeps the old kernel: excluded by the visible hypothesis of rebuild_equals_original); original and rebuilt surrogate are constructed with the same kernel settings (the file does not store them)',
-    'the model has been solved at least once (an unsolved precipitation model holds eqAspectRatio = None and cannot be loaded back)',
+    'the model has been solved at least once (an unsolved precipitation model holds eqAspectRatio = None and cannot be loaded back; a StrengthModel that was never updated saves None and does not load: compared with the model, not a violation)',
+    'every class / branch: the file that is loaded is the file save() wrote (StrengthModel.load and loadRecordedPSD hand the name to np.load, which unlike np.savez does not add .npz: counted as an observation, see the histogram); GrainGrowthModel and Coupler inherit GenericModel.save with an empty toDict: nothing is written, the oracle holds vacuously (they are not precipitation or diffusion models; counted as no-fields-written); PrecipitateModel.saveRecordedPSD writes nothing while recording is switched off',
     'phase names of one model are distinct',
     'finite array contents; array dtype (finalTime may be saved as int64) is not modelled, values are compared as doubles',
     'argument forwarding is observed on a recording mock thermodynamics with marker values (non-default value for every parameter; phases PREC2 / PREC3 of a 4-phase mock) and, on the real Al-Mg-Si system, on a spy around the real object; extra positional arguments are taken to follow the documented order: the getter own parameters, then the remaining parameters of the thermodynamics method',
@@ -1224,6 +1234,22 @@ def save_named(method, name='model.npz'):
     return f
 
 
+def suffix_observation(res, tmp, cname, obj, make_fresh, save, load):
+    """OBSERVATION, not a violation (the file save() wrote loads exactly): np.savez adds '.npz' to a name without it, np.load adds
+    nothing, so <obj>.save('name') followed by <fresh>.load('name') raises FileNotFoundError for the classes that hand the name
+    straight to NumPy; GenericModel.save / load add the suffix on both sides"""
+    d = tempfile.mkdtemp(prefix='sfx_', dir=tmp)
+    try:
+        getattr(obj, save)(os.path.join(d, 'name'))
+        try:
+            getattr(make_fresh(), load)(os.path.join(d, 'name'))
+            res.count('saveload:%s:suffix-less-name-loads' % cname)
+        except FileNotFoundError:
+            res.count('saveload:%s:load-needs-.npz-suffix-that-save-adds' % cname)
+    except Exception as e:
+        res.count('saveload:%s:suffix-probe-raised-%s' % (cname, type(e).__name__))
+
+
 def strength_roundtrips(res, tmp, sm, desc):
     """StrengthModel: every keyword branch of save, loaded into a fresh StrengthModel"""
     vlib.use_repo()
@@ -1240,6 +1266,8 @@ def recorded_psd_roundtrips(res, tmp, m, make_model, desc):
     """PrecipitateModel.saveRecordedPSD (every boolean keyword x phase='all' / each phase name) -> PopulationBalanceModel.loadRecordedPSD
     into the population balance model of a freshly constructed precipitation model"""
     phases = [str(p) for p in m.phases]
+    suffix_observation(res, tmp, 'PopulationBalanceModel', m.PBM[0], lambda: make_model().PBM[0], 'saveRecordedPSD', 'loadRecordedPSD')
+    suffix_observation(res, tmp, type(m).__name__, m, make_model, 'save', 'load')
     for tag, kw in save_variants(type(m).saveRecordedPSD):
         for pi, ph in enumerate(phases):
             for sel in ('all', ph):
@@ -2490,7 +2518,7 @@ def run_history(res, ctx, tmp, kind, cfg, ops, lines=None, pending=None):
             got = snap(fresh)
             want = store[canon_name(f)][-1]
             loads.append(dict(desc=desc, outcome=None, after=got))
-            live.append(fresh); caps.append(StepCap(fresh))
+            live.append(fresh); caps.append(StepCap(fresh) if kind != 'S' else None)
             idle[len(live) - 1] = got
             nloads_checked += 1
             nth = len(store[canon_name(f)])
@@ -2617,6 +2645,7 @@ def run_synthetic_strength(res, tmp, spec):
     if spec['kind'] == 'no-particles':
         sm.rss[:] = 0; sm.ls[:] = 0
     strength_roundtrips(res, tmp, sm, dict(spec))
+    suffix_observation(res, tmp, 'StrengthModel', sm, StrengthModel, 'save', 'load')
 
 
 def gen_graingrowth(rng):
@@ -2652,8 +2681,9 @@ def check_classes(res, ctx, tmp, rng, n_synth, n_gg, n_hist, oracle_only, errs):
     for k in range(n_synth):
         spec = gen_synthetic_strength(rng, SYNTH_KINDS[k] if k < len(SYNTH_KINDS) else None)
         guarded(res, errs, 'saveload-synthetic-strength', dict(spec), lambda: run_synthetic_strength(res, tmp, spec))
-    for _ in range(n_gg):
+    for k in range(n_gg):
         spec = gen_graingrowth(rng)
+        spec['coupler'] = True if k == 0 else spec['coupler']
         guarded(res, errs, 'saveload-graingrowth', dict(spec), lambda: run_graingrowth_case(res, tmp, spec))
     for _ in range(n_hist):
         cfg = hist_strength_cfg(rng)
@@ -3189,7 +3219,8 @@ def corr(ctx, scale=1, oracle_only=False, only=None):
     res.rule = ('real Al-Zr KWN runs (random x0, T, class count, adaptive on/off, Euler/RK4, PSD recording on/off; thorough: + Ni-Cr-Al, 5-precipitate Al-Mg-Si) saved between solve calls and after completion; '
                 'random SinglePhaseModel runs (1-3 solutes, 5-40 nodes, 1-3 solve calls, recording on/off/switched off/switched on/removed; thorough: + real Ni-Cr(-Al) thermodynamics, HomogenizationModel); '
                 'untrained getters on random points of the real Al-Zr / Ni-Cr-Al thermodynamics (phases by default or named); every getter of both surrogate classes on a recording mock thermodynamics in every call form (default, all keywords, each keyword alone, positional, positional extras) + random calls, non-default value for every argument; untrained and partially trained MulticomponentSurrogate of Al-Mg-Si (5 precipitate phases) for every phase; tiny trained surrogates (linear/log, broadcast or point lists); random arrays through JSON; save/load histories: 10 diffusion + 2 Al-Zr precipitation histories per quick run (solve, save(name), load(name) prefix; 3-12 random solve/save/load calls on the original and on loaded models, 2-3 names reused, both spellings; solve, save, load of a name loaded before as suffix); training grids: 9 binary + 3 ternary specs (first ones forced: linear fit dx 5e-4 single T; dx 1e-4 x dT 10 grid; log fit dx 1e-5; point list dx 3e-5 dT 0.5), all quantities; training orders: 4 binary + 2 ternary specs x (all permutations + all ordered pairs, getter calls in between) (first ones forced: default kernel settings, 2-axis diffusivity with 1-axis driving force). '
-                'non-trivial = populated size distribution / evolved profile / a getter evaluated; distinct = configuration + save point')
+                'every class with a save/load pair x every boolean keyword of save: StrengthModel (compressed / uncompressed) and the recorded-PSD files (compressed / uncompressed x phase=all / named) at every save point of the precipitation cases, 8 synthetic strength histories (distinct, neighbouring doubles, late nucleation, single step, no particles; 1-3 phases), 1 HomogenizationModel on real Ni-Cr thermodynamics, 2 GrainGrowthModel (+ Coupler), 1 history of a StrengthModel coupled to a run started from a particle population (solve / save(name, compressed) / load, both formats on one name); '
+                'non-trivial = populated size distribution / evolved profile / a getter evaluated / every saved field populated and pairwise distinct; distinct = configuration + save point (+ class + branch)')
     rng = ctx.rng
     import time as _t0
     t_start = _t0.time()
@@ -3290,7 +3321,8 @@ def corr(ctx, scale=1, oracle_only=False, only=None):
         res.extra['tables'] = 'extraction failed: %s' % type(e).__name__
     if errs:
         res.extra['harness_errors'] = [e[-600:] for e in errs[:3]]
-        if not res.violations:
+        known = vlib.load_findings().get(PROP, {})
+        if not [v for v in res.violations if v['key'] not in known]:       # a recorded finding seen in the same run does not excuse a harness error
             raise RuntimeError('harness error(s) in %d case(s), first:\n%s' % (len(errs), errs[0]))
     return res
 
